@@ -270,7 +270,8 @@ class SimpleEventSequence(EventSequence):
         self._events.extend([self._pad_event] * (steps - len(self)))
     else:
       if from_left:
-        del self._events[0:-steps]
+        # Not [0:-steps]: with steps == 0 that would delete nothing.
+        del self._events[0:len(self._events) - steps]
       else:
         del self._events[steps:]
 
